@@ -214,3 +214,76 @@ class FakeSession:
 
     def mount(self, *a, **k):
         pass
+
+
+class XFuture:
+    def __init__(self, pool, index):
+        self.pool, self.index = pool, index
+        self.done = False
+        self.value = None
+        self.exc = None
+
+    def result(self, timeout=None):
+        self.pool.s.park("wait", lambda: self.done, detail=str(self.index))
+        if self.exc is not None:
+            raise self.exc
+        return self.value
+
+
+class XPool:
+    """double of concurrent.futures.ThreadPoolExecutor as laspy.copc uses it (context manager, submit, futures'
+    result()): FIFO work queue, up to max_workers threads, shutdown(wait=True) on exit; every hand-over is a
+    scheduling point of the deterministic scheduler"""
+
+    def __init__(self, sched, max_workers=None):
+        self.s = sched
+        self.max_workers = max_workers or 1
+        self.queue = []
+        self.threads = []
+        self.shutdown_flag = False
+        self.nsubmitted = 0
+
+    def __enter__(self):
+        return self
+
+    def submit(self, fn, *args, **kwargs):
+        fut = XFuture(self, self.nsubmitted)
+        self.nsubmitted += 1
+        self.queue.append((fut, fn, args, kwargs))
+        if len(self.threads) < self.max_workers:
+            tid = self.s.next_worker
+            self.s.next_worker += 1
+            self.s.announce(tid)
+            th = threading.Thread(target=self._worker, args=(tid,))
+            self.threads.append((tid, th))
+            th.start()
+        return fut
+
+    def _worker(self, tid):
+        self.s.adopt(tid)
+        try:
+            while True:
+                self.s.park("take", lambda: bool(self.queue) or self.shutdown_flag)
+                if self.queue:
+                    fut, fn, args, kwargs = self.queue.pop(0)
+                    try:
+                        fut.value = fn(*args, **kwargs)
+                    except Abort:
+                        raise
+                    except BaseException as e:
+                        fut.exc = e
+                    fut.done = True
+                elif self.shutdown_flag:
+                    break
+        except Abort:
+            pass
+        finally:
+            self.s.finish()
+
+    def __exit__(self, exc_type, exc, tb):
+        self.s.park("shutdown")
+        self.shutdown_flag = True
+        self.s.park("joinP", lambda: all(self.s.actors[tid].state == "finished" for tid, _ in self.threads))
+        for _, th in self.threads:
+            th.join(5)
+        return False
